@@ -1,6 +1,7 @@
 import Driver.Proto
 import Driver.OpsTime
 import Driver.OpsBattery
+import Driver.OpsFail
 
 namespace Driver
 
@@ -10,6 +11,7 @@ structure DState where
 def step (st : DState) (line : String) : DState × String :=
   match line.splitOn " " with
   | "time" :: args => (st, (opsTime args).getD "bad-op")
+  | "fail" :: args => (st, (opsFail args).getD "bad-op")
   | "bat" :: args =>
       match opsBattery st.bat args with
       | some (b, out) => ({ st with bat := b }, out)
